@@ -211,6 +211,7 @@ def chain_harness(ctx, chain):
                 for j in range(m0):
                     D[i, j] = ctx.real(f"A_{i}_{j}")
             A = SymSparse(D, "csr")
+            inputs["A"] = D.copy()
             expr = A @ expr
         elif pre[0] == "*":
             expr = 2.0 * expr
@@ -373,9 +374,11 @@ def replay_case(case):
         y, yd = _real_operand(ch["kind"], case["y"])
         pre = ch["pre"]
         expr = Ss[0]
+        Areal = None
         if pre and pre[0] == "@":
-            return False, "replay of symbolic left matrix not supported"
-        if pre:
+            Areal = np.array(case["A"], dtype=float)
+            expr = sps.csr_matrix(Areal) @ expr
+        elif pre:
             expr = {"*": lambda: 2.0 * expr, "-": lambda: 3 - expr, "+": lambda: 1.5 + expr,
                     "/": lambda: 2.0 / expr, "**": lambda: 2.0 ** expr}[pre[0]]()
         for S in Ss[1:]:
@@ -388,6 +391,8 @@ def replay_case(case):
         def post(v):
             if not pre:
                 return v
+            if pre[0] == "@":
+                return Areal @ v
             return {"*": lambda: 2.0 * v, "-": lambda: 3 - v, "+": lambda: 1.5 + v,
                     "/": lambda: 2.0 / v, "**": lambda: 2.0 ** v}[pre[0]]()
 
